@@ -221,7 +221,7 @@ func sharedWritesRule(P *Program, R *Report) {
 			if desc(st.Addr) != saccD+".Accumulator" {
 				continue
 			}
-			r := (&MustPass{P: P, NoInterproc: true, Match: func(a Atom) bool { return desc(a.V) == saccD+".Accumulator" && a.Want == Nil }}).MustReach(uv, st)
+			r := (&MustPass{P: P, Match: func(a Atom) bool { return desc(a.V) == saccD+".Accumulator" && a.Want == Nil }}).MustReach(uv, st)
 			R.decide(rule, kSaccVerify+":cache-write-once", "the cached accumulator is written only while the cache is empty (a populated shared object is never re-written by verification)", r.Holds, r.Path, P.Pos(st.Pos()))
 		}
 	}
@@ -308,7 +308,7 @@ func workerPoolRule(P *Program, R *Report) {
 		key := FuncKey(fn)
 		R.seen(key)
 		// Wait post-dominates the spawns: every return passes a WaitGroup.Wait
-		mp(P, R, rule, key+":joined", "every return of the function passes WaitGroup.Wait (workers are joined before results are used)", fn, AcceptAny(), &MustPass{NoInterproc: true, Instr: func(_ *ssa.Function, i ssa.Instruction) bool {
+		mp(P, R, rule, key+":joined", "every return of the function passes WaitGroup.Wait (workers are joined before results are used)", fn, AcceptAny(), &MustPass{Instr: func(_ *ssa.Function, i ssa.Instruction) bool {
 			c, ok := i.(*ssa.Call)
 			return ok && calleeName(c) == "(*sync.WaitGroup).Wait"
 		}})
@@ -606,7 +606,7 @@ func onceGuardedReadsRule(P *Program, R *Report) {
 			ok := true
 			var why []string
 			for _, ld := range loads {
-				q := &MustPass{P: P, NoInterproc: true, Instr: func(_ *ssa.Function, i ssa.Instruction) bool {
+				q := &MustPass{P: P, Instr: func(_ *ssa.Function, i ssa.Instruction) bool {
 					c, isC := i.(*ssa.Call)
 					return isC && calleeName(c) == "(*sync.Once).Do"
 				}}
